@@ -176,10 +176,17 @@ def Rows.get (g : Rows F) (y x : Int) : F :=
 def meanPass (rows cols : Nat) (excludes : List F) (g : Rows F) : Rows F :=
   (List.range rows).map fun (y : Nat) => (List.range cols).map fun (x : Nat) => meanCell g.get rows cols excludes (y : Int) (x : Int)
 
-/-- `focal.mean(agg, passes, excludes)` -/
-def meanN (rows cols : Nat) (excludes : List F) : Nat → Rows F → Rows F
+/-- `p` applications of the one-pass operator -/
+def meanIter (rows cols : Nat) (excludes : List F) : Nat → Rows F → Rows F
   | 0, g => g
-  | p + 1, g => meanPass rows cols excludes (meanN rows cols excludes p g)
+  | p + 1, g => meanPass rows cols excludes (meanIter rows cols excludes p g)
+
+/-- `focal.mean(agg, passes, excludes)`: the wrapper feeds the one-pass result back `passes` times -- when the
+    generated fact `mean_iterates_passes` says that this is the shape of `mean()` (float raster; `for _ in
+    range(passes): out = _mean(out, excludes)`; `DataArray(out, ...)`).  Any other shape of the wrapper is not
+    modelled: the model then returns its input, which no theorem about `meanN` accepts. -/
+def meanN (rows cols : Nat) (excludes : List F) (p : Nat) (g : Rows F) : Rows F :=
+  if mean_iterates_passes then meanIter rows cols excludes p g else g
 
 /-! ### `convolution._convolve_2d_numpy` -/
 
